@@ -211,6 +211,10 @@ BATCHES = [
     obj("2.0", ABSENT, "na", [1]),
     [obj("2.0", None, "na", [1]), obj(ABSENT, "", "nboom", []), obj("2.0", 2, "call", [5])],
     [obj("2.0", ABSENT, "na", [1]), obj("2.0", ABSENT, "na", [2]), obj("2.0", ABSENT, "na", [3])],
+    # calls whose id is falsy without being null/empty are not notifications: answered, run once, next to real notifications
+    [obj("2.0", 0, "call", [9]), obj("2.0", ABSENT, "na", [1]), obj("2.0", False, "call", [8])],
+    obj(ABSENT, 0.0, "call", [3]),
+    [obj("2.0", [], "call", [4]), obj("2.0", {}, "call", [5]), obj("2.0", "", "nb", [6])],
 ]
 
 
@@ -227,6 +231,8 @@ def harnesses(tier):
             for dispatch in ("default", "custom"):
                 for bi in range(len(BATCHES)):
                     if tier == "quick" and dispatch == "custom" and bi not in (0, 3):
+                        continue
+                    if bi >= 5 and tier == "quick" and (size not in ((1, 0), (2, 1)) or when == "during"):
                         continue
                     for gran in (("sync", "line") if tier == "thorough" or (bi in (0, 4) and dispatch == "default") else ("sync",)):
                         out.append((("checks.c04", "make", (size, when, dispatch, bi, gran)),
@@ -249,7 +255,7 @@ META = {
     "(schedule enumeration with iterative preemption/timer bounds) of the dispatcher with a notification ThreadPool",
     "rule": "sequential: 5 notification shapes x 7 method outcomes x 8 (version, dispatch) configurations x placement alone / every position of every "
     "batch of <=2 (quick) / <=3 (thorough) other entries from a 5-entry alphabet; client: _notify and MultiCall._notify through a loopback proxy for "
-    "client/server versions {1.0,2.0}^2; pool: 5 batches x pool sizes x pool started before/during/after the request x default/custom dispatch, every "
+    "client/server versions {1.0,2.0}^2; pool: 8 batches (notifications of the three shapes, calls, failing notifications, calls with falsy ids 0/False/0.0/[]/{}) x pool sizes x pool started before/during/after the request x default/custom dispatch, every "
     "schedule up to the per-harness completed (K,T) level; non-trivial = inside the domain / execution with a choice point",
     "bounds": {"quick": {"batch_len": 3, "pool_sizes": "(1,0) (1,1) (2,0) (2,1) (2,2)", "levels": "iterative ladder, predicted next level <= 1200 executions"},
                "thorough": {"batch_len": 4, "pool_sizes": "+ (3,0) (3,1)", "levels": "ladder, predicted <= 40000"}},
